@@ -728,6 +728,24 @@ def fuzz_case(ctx, idx, res):
             mm = re.search(r'XV-FUZZ: ([^\n]*)', err)
             kind = 'monitor:' + mm.group(1)[:60] if mm else ('libFuzzer:' + (re.findall(r'ERROR: libFuzzer: ([\w\- ]+)', err) or ['exit %s' % p.returncode])[0])
         data = open(os.path.join(wd, 'artifacts', arts[0]), 'rb').read() if arts else b''
+        if kind.startswith('libFuzzer:timeout') and arts:
+            # a time-out is a verdict only when it can be repeated (the rule for every other request of the framework): the input is run
+            # again, alone, in a fresh process with ten times the budget.  If it finishes, the stall belonged to the machine or to state of
+            # the fuzzing process that the input alone does not rebuild: inconclusive, and the input is kept for inspection.
+            try:
+                p2 = subprocess.run([exe_path('fuzz', 'xvfuzz'), '-timeout=600', os.path.join(wd, 'artifacts', arts[0])], capture_output=True, text=True, errors='replace', timeout=900, env=env, cwd=wd)
+                again = p2.returncode != 0
+            except subprocess.TimeoutExpired:
+                again = True
+            if not again:
+                keep = os.path.join(os.path.dirname(os.path.dirname(ctx.workdir)), 'timeouts')          # WORK/timeouts, as framework.crash_violation
+                os.makedirs(keep, exist_ok=True)
+                shutil.copy(os.path.join(wd, 'artifacts', arts[0]), os.path.join(keep, 'C03.fuzz%d.%s' % (idx, arts[0][:24])))
+                open(os.path.join(keep, 'C03.fuzz%d.stderr' % idx), 'w').write(err[-20000:])
+                res.inconclusive.append('fuzz-timeout-not-repeatable')
+                res.count('fuzz_timeouts_not_repeatable')
+                return
+            kind = 'hang (libFuzzer time-out, repeated alone with ten times the budget)'
         res.viol('fuzz|%s|%s' % (kind, ';'.join(frames[:2])), 'libFuzzer input of %d bytes (mode %s): %s in %s' % (len(data), data[0] % 5 if data else '?', kind, ' <- '.join(frames[:3]) or '?'),
                  {'input_hex': data.hex()[:20000], 'input_text': data[1:2000].decode('utf-8', 'replace'), 'stderr_tail': err[-3000:], 'command': ' '.join(cmd)})
 
